@@ -31,6 +31,8 @@ Section Heap.
   Variable cap : nat.
   Hypothesis OK : slots_ok cap = true.
   Hypothesis SH : shape_ok cap = true.
+  (* every lemma of this section takes [cap OK SH] first, whether its proof needs both or not *)
+  Set Default Proof Using "OK SH".
 
   Definition items (h : nat -> option item) : list item := flat_map (fun i => olist (h i)) (seq 1 cap).
   Definition prios (h : nat -> option item) : list Z := map prio (items h).
@@ -293,14 +295,14 @@ Section Heap.
       + rewrite (HO k). split; intros (j & Hj & E); exists j; (split; [|exact E]); [lia|].
         destruct (Nat.eq_dec j (S n)) as [->|]; [exfalso; apply K; symmetry; exact E|lia].
     - intros k. unfold upd. destruct (Nat.eqb_spec k i); [discriminate|apply HE].
-    - intros k Hk Hki. rewrite upd_other in Hk |- * by exact Hki. apply HA. exact Hk.
+    - intros k Hk Hki. rewrite upd_other in Hk by exact Hki. rewrite upd_other by exact Hki. apply HA. exact Hk.
     - intros _. rewrite !upd_same. split; [discriminate|reflexivity].
     - intros k Hk Hki y Hy. rewrite upd_other in Hy by exact Hki. destruct (Hord k Hk y Hy) as (z & Hz & Hle).
       exists z. split; [|exact Hle]. rewrite upd_other; [exact Hz|]. intros E.
-      assert (h k = None) by (apply (no_child_of_later n h (S n) k); try lia; [exact HO|exact E]). congruence.
+      assert (h k = None) by (apply (no_child_of_later n h (S n) k); [lia|exact HO|lia|lia|exact E]). congruence.
     - intros Hi2 c y z Hc Hdc Hy Hz. exfalso. assert (c <> i) by (intros ->; pose proof (div2_lt i ltac:(lia)); lia).
       rewrite upd_other in Hy by assumption.
-      assert (h c = None) by (apply (no_child_of_later n h (S n) c); try lia; [exact HO|exact Hdc]). congruence.
+      assert (h c = None) by (apply (no_child_of_later n h (S n) c); [lia|exact HO|lia|lia|exact Hdc]). congruence.
   Qed.
 
   (** pop: the bottom cell is emptied *)
@@ -319,7 +321,7 @@ Section Heap.
     - intros k Hk y Hy. assert (Kb : k <> b) by (intros ->; rewrite upd_same in Hy; discriminate).
       rewrite upd_other in Hy by exact Kb. destruct (Hord k Hk y Hy) as (z & Hz & Hle). exists z. split; [|exact Hle].
       rewrite upd_other; [exact Hz|]. intros E.
-      assert (upd h b None k = None) by (apply (no_child_of_later n _ (S n) k); try lia; [exact HO'|exact E]).
+      assert (upd h b None k = None) by (apply (no_child_of_later n _ (S n) k); [lia|exact HO'|lia|lia|exact E]).
       rewrite upd_other in H by exact Kb. congruence.
   Qed.
 
@@ -355,7 +357,7 @@ Section Heap.
   Lemma DownInv_leaf p n h tg : n <= cap -> DownInv p n h tg -> h (2 * p) = None -> Good n h tg.
   Proof.
     intros Hn HD Hl. pose proof HD as (HO & _ & Hp & _). apply (DownInv_stop p n h tg HD).
-    intros k x y Hk Hd Hx Hy. exfalso. destruct (div2_children k p Hp Hd) as [->|->]; [congruence|].
+    intros k x y Hk Hd Hx Hy. exfalso. destruct (div2_children k p Hp Hd) as [-> | ->]; [congruence|].
     apply (left_before_right n h p Hn HO Hp); [rewrite Hx; discriminate|exact Hl].
   Qed.
 
@@ -394,7 +396,8 @@ Section Heap.
     - intros k Hk Hd x Hx. destruct (Nat.eq_dec k p) as [->|K1].
       + rewrite E2 in Hx. inversion Hx; subst x.
         assert (Hpp : h (Nat.div2 p) <> None) by (apply (parent_occupied n h p Hn HO Hk); rewrite Hv; discriminate).
-        destruct (h (Nat.div2 p)) as [y|] eqn:Ey; [|congruence]. exists y.
+        assert (Hex : exists y, h (Nat.div2 p) = Some y) by (destruct (h (Nat.div2 p)) as [y|]; [exists y; reflexivity|congruence]).
+        destruct Hex as [y Ey]. exists y.
         pose proof (div2_lt p ltac:(lia)). rewrite E3 by lia. split; [exact Ey|]. apply (Hgr Hk ch m y ltac:(lia) Hdch Hm Ey).
       + destruct (Nat.eq_dec k ch) as [->|K2].
         * rewrite E1 in Hx. inversion Hx; subst x. exists m. rewrite Hdch. split; [exact E2|lia].
